@@ -605,6 +605,41 @@ func hostExtractionShape(fn *ssa.Function) (bool, string) {
 			everyIterOrError = m.min == 1 && m.max == 1
 		}
 	}
+	// "in order": the list that was accumulated is the list that is returned - nothing sorts,
+	// compacts, reverses or otherwise rearranges it afterwards (file i must be host i's log)
+	rearranged := ""
+	allInstrs(fn, func(i ssa.Instruction) {
+		switch x := i.(type) {
+		case *ssa.Call:
+			k := calleeKey(&x.Call)
+			if strings.HasPrefix(k, "builtin ") || k == "net.SplitHostPort" {
+				return
+			}
+			for _, a := range x.Call.Args {
+				if isStringSliceT(a.Type()) {
+					rearranged = "the host list is handed to " + shortKey(k) + " after it was extracted: the order of the connection string is not guaranteed to survive (output file i would hold another member's log)"
+				}
+			}
+		case *ssa.Return:
+			if len(x.Results) == 0 || !isStringSliceT(x.Results[0].Type()) {
+				return
+			}
+			for _, vs := range sourcesAt(x.Results[0], x.Block()) {
+				v := peel(vs.Val)
+				if call, isCall := v.(*ssa.Call); isCall && calleeKey(&call.Call) != "builtin append" {
+					rearranged = "the list returned is the result of " + shortKey(calleeKey(&call.Call)) + ", not the list accumulated in connection-string order"
+				}
+				if _, isSlice := v.(*ssa.Slice); isSlice {
+					if _, _, fresh := freshSlice(v); !fresh {
+						rearranged = "a re-sliced part of the accumulated list is returned"
+					}
+				}
+			}
+		}
+	})
+	if rearranged != "" {
+		return false, rearranged
+	}
 	if collOK && okVal && everyIterOrError {
 		return true, fmt.Sprintf("single range over cs.Hosts; every completed iteration stores exactly one value (host part of SplitHostPort | element where there is no port), %d site(s)", len(sites))
 	}
